@@ -5,6 +5,13 @@ filter but cannot invent a missing one."""
 from .facts import walk, strip, strip_casts, lv, show, writes, calls, root_var
 
 
+def _vname(ref):
+    """Locals are keyed by name and declaration id: distinct scopes reuse names like `tmp`."""
+    if ref.get("dk") in ("local", "slocal") and ref.get("id") is not None:
+        return "%s#%d" % (ref["n"], ref["id"])
+    return ref["n"]
+
+
 def _names(x, rrp):
     """Variable names read in expression x: root variables, plus `rrp->F` for the designated parameter."""
     out = set()
@@ -32,13 +39,13 @@ def _names(x, rrp):
                 if cur["n"] == rrp and chain:
                     out.add("%s->%s" % (rrp, chain[-1]))
                 else:
-                    out.add(cur["n"])
+                    out.add(_vname(cur))
             else:
                 rec(cur)
             return
         if k == "ref":
             if n.get("dk") in ("local", "param", "slocal", "global"):
-                out.add(n["n"])
+                out.add(_vname(n))
             return
         from .facts import children
         for c in children(n):
@@ -48,7 +55,9 @@ def _names(x, rrp):
 
 
 class Influence:
-    def __init__(self, prog, fn, rrp, summaries=None, depth=0):
+    def __init__(self, prog, fn, rrp, summaries=None, depth=0, opaque_calls=()):
+        """opaque_calls: callees whose effect on pointer arguments is ignored (e.g. a delegation that is analysed as its own route)."""
+        self.opaque_calls = set(opaque_calls)
         self.prog = prog
         self.fn = fn
         self.cfg = fn.cfg
@@ -93,7 +102,10 @@ class Influence:
         for l, kind, n in writes(x):
             rv = root_var(l)
             if rv is not None:
-                W.add(rv["n"])
+                if kind == "decl":
+                    W.add("%s#%d" % (rv["n"], n["id"]) if n.get("id") is not None else rv["n"])
+                else:
+                    W.add(_vname(rv))
             # index expressions and the rhs are reads
             wnodes.append(l)
         R |= _names(x, self.rrp)
@@ -120,7 +132,9 @@ class Influence:
                     const = "const" in params[ai]["t"].split("*")[0]
                 rv = root_var(a_)
                 if rv is not None and not const and rv["n"] != self.rrp:
-                    W.add(rv["n"])
+                    if (c.get("fn") or "") in self.opaque_calls:
+                        continue
+                    W.add(_vname(rv))
         return W, R
 
     def _build(self):
